@@ -145,6 +145,8 @@ func setMode(opt *GetOpt, mode int) {
 
 func setUnknown(opt *GetOpt, um int) {
 	switch um {
+	case 0:
+		opt.SetUnknownMode(Fail)
 	case 1:
 		opt.SetUnknownMode(Warn)
 	case 2:
